@@ -23,7 +23,7 @@ named terms to its variables evaluates to the pattern's `evalP` value — the su
 `b[(var $x) := e]` included, as the replacement of the `(var $x)` subterms whenever that is hygienic
 (`Eval.substOK`: `x` is read only through `var`, no binder of `b` rebinds `x` or captures a slot of
 `e`; `evalN_subst`) — so every instance of a valid rule *holds* as an equation between terms
-(`rule_instance_holds`, all 34 pool rules), and
+(`rule_instance_holds`, all 35 pool rules), and
 `saturation_sound` chains it with `cong_eval`: whatever is derivable from instances of pool rules
 and from user equations that hold evaluates equal.  The locally nameless conversion `Term.close`
 used by the driver is proved meaning-preserving (`close_preserves_meaning`), so it is not trusted.
